@@ -236,7 +236,8 @@ def run_check(prop, tier, seed, replay=None):
                                                'detail': first['detail'], 'cases': cases_payload, 'seed': seed, 'all_broken': [b['obligation'] for b in broken]})
             print('VIOLATION property=%s replay=%s no-failing-input-found' % (prop.id, path))
             exit_code = 1
-        core.write_evidence(prop.id, tier, seed, coverage, prop.assumptions(), time.time() - t0, len(failing) + (1 if broken and not failing else 0))
+        if not replay:      # a replay re-runs one recorded input: it is not a record of what the check covers
+            core.write_evidence(prop.id, tier, seed, coverage, prop.assumptions(), time.time() - t0, len(failing) + (1 if broken and not failing else 0))
     finally:
         ws.cleanup()
     return exit_code
